@@ -14,6 +14,38 @@ N2  dict.update with keywords / a literal dict on such an attribute, as a statem
     Only when the receiver's attribute name ends in "_cached_parameters" or is "_ds"-like private state is NOT required: any private attribute on a bare
     name qualifies, the receiver must be a dict for .update(k=v) to be legal at all.  xarray Datasets also accept update({...}) with assignment semantics
     per key, so the rewrite is valid for `_ds` too.
+
+N3  loop over a constant table
+        for k, v in TABLE.items():        TABLE a module-level dict/tuple/list literal of constants, bound once in the module and never
+            <body using k, v>             mutated there (no TABLE[...] = , no TABLE.<mutator>(...)); a literal tuple/list of constants in place also counts
+    ==> the body once per entry with k, v replaced by the constants, in the table's order (at most 12 entries).
+    Side conditions: the loop variables are not assigned in the body and not read outside the loop; the body contains no `continue`; `break`
+    only in the shape  `if <test>: ...; break`  as the whole body, which becomes an if/elif chain whose final else is the loop's else clause.
+
+N4  thin wrapper around a same-module function
+        def w(a, b):                          the whole body (after an optional docstring) is  return h(...)  /  h(...)
+            return h(a, b, f=g, k="x")        every argument is a parameter of w, a constant, or a module-level name (function / constant table)
+    ==> w's body becomes h's body with h's parameters replaced by those arguments (defaults for the parameters not passed).
+    Side conditions: h is a module-level def in the same module, defined once, not w itself, no decorators, no *args/**kwargs on either side, h does not
+    assign its substituted parameters, contains no nested def/lambda/global/nonlocal/yield, and no local name of h collides with a parameter name of w
+    that is substituted in.  Applied once (wrappers of wrappers are resolved innermost first, at most three rounds).
+
+N5  single-expression helper
+        def h(a, b, f, kw):                     undecorated module-level def, defined once, whose body (after a docstring) is  return <expr>
+            return f(a[..., b], axis=-1, **kw)
+        ... r = h(x, y, g, opts) ...
+    ==> the call is replaced by <expr> with the parameters replaced by the arguments.
+    Side conditions: positional/keyword arguments only; an argument that is not a name, constant or attribute chain is substituted only when its parameter
+    occurs exactly once in <expr>; <expr> binds no names (no lambda / comprehension / walrus); the module-level names <expr> uses are not rebound locally in
+    the calling function; h is not recursive.
+
+N6  helper that never returns
+        def fail(x):                     every path of the body ends in `raise`, no `return` anywhere
+            if x.a: raise E1(...)
+            raise E2(...)
+        ...
+        if not ok: fail(v)               the call is a statement on its own
+    ==> the statement is replaced by the body of `fail` with its parameters replaced by the (simple) arguments; side conditions as in N4.
 """
 import ast
 import copy
@@ -198,8 +230,499 @@ class _Updates(ast.NodeTransformer):
         return node
 
 
+_MUTATORS = {"update", "pop", "popitem", "clear", "setdefault", "append", "extend", "insert", "remove", "sort", "reverse", "__setitem__", "__delitem__"}
+
+
+def _const(e):
+    if isinstance(e, ast.Constant):
+        return True
+    if isinstance(e, ast.UnaryOp) and isinstance(e.op, ast.USub) and isinstance(e.operand, ast.Constant):
+        return True
+    if isinstance(e, ast.Tuple) and all(_const(x) for x in e.elts):
+        return True
+    return False
+
+
+def _module_tables(tree):
+    """module-level NAME = {const: const, ...} | (const, ...) | [const, ...], bound once and never mutated in the module"""
+    cand, count = {}, {}
+    for st in tree.body:
+        tg = None
+        if isinstance(st, ast.Assign) and len(st.targets) == 1 and isinstance(st.targets[0], ast.Name):
+            tg, v = st.targets[0].id, st.value
+        elif isinstance(st, ast.AnnAssign) and isinstance(st.target, ast.Name) and st.value is not None:
+            tg, v = st.target.id, st.value
+        if tg is None:
+            continue
+        count[tg] = count.get(tg, 0) + 1
+        if isinstance(v, ast.Dict) and v.keys and all(k is not None and _const(k) for k in v.keys) and all(_const(x) for x in v.values):
+            cand[tg] = v
+        elif isinstance(v, (ast.Tuple, ast.List)) and v.elts and all(_const(x) for x in v.elts):
+            cand[tg] = v
+    for n in ast.walk(tree):
+        nm = None
+        if isinstance(n, (ast.Subscript, ast.Attribute)) and isinstance(n.ctx, (ast.Store, ast.Del)) and isinstance(n.value, ast.Name):
+            nm = n.value.id
+        elif isinstance(n, ast.Call) and isinstance(n.func, ast.Attribute) and n.func.attr in _MUTATORS and isinstance(n.func.value, ast.Name):
+            nm = n.func.value.id
+        elif isinstance(n, ast.Name) and isinstance(n.ctx, (ast.Store, ast.Del)) and n.id in cand and not any(n is t for st in tree.body if isinstance(st, ast.Assign) for t in st.targets) \
+                and not any(isinstance(st, ast.AnnAssign) and n is st.target for st in tree.body):
+            nm = n.id
+        elif isinstance(n, ast.Global):
+            for g in n.names:
+                cand.pop(g, None)
+        if nm:
+            cand.pop(nm, None)
+    return {k: v for k, v in cand.items() if count.get(k) == 1}
+
+
+def _loop_entries(it, tables, ntargets):
+    """list of tuples of constant nodes the loop iterates over, or None"""
+    def table(e):
+        if isinstance(e, ast.Name):
+            return tables.get(e.id)
+        if isinstance(e, (ast.Tuple, ast.List)) and e.elts and all(_const(x) for x in e.elts):
+            return e
+        if isinstance(e, ast.Dict) and e.keys and all(k is not None and _const(k) for k in e.keys) and all(_const(x) for x in e.values):
+            return e
+        return None
+    if isinstance(it, ast.Call) and isinstance(it.func, ast.Attribute) and not it.args and not it.keywords and it.func.attr in ("items", "keys", "values"):
+        t = table(it.func.value)
+        if not isinstance(t, ast.Dict):
+            return None
+        if it.func.attr == "items":
+            return [(k, v) for k, v in zip(t.keys, t.values)] if ntargets == 2 else None
+        seq = t.keys if it.func.attr == "keys" else t.values
+    else:
+        t = table(it)
+        if t is None:
+            return None
+        seq = t.keys if isinstance(t, ast.Dict) else t.elts
+    if ntargets == 1:
+        return [(x,) for x in seq]
+    if all(isinstance(x, ast.Tuple) and len(x.elts) == ntargets for x in seq):
+        return [tuple(x.elts) for x in seq]
+    return None
+
+
+class _ConstSubst(ast.NodeTransformer):
+    def __init__(self, m):
+        self.m = m
+
+    def visit_Name(self, n):
+        if isinstance(n.ctx, ast.Load) and n.id in self.m:
+            new = copy.deepcopy(self.m[n.id])
+            for x in ast.walk(new):
+                ast.copy_location(x, n)
+            return new
+        return n
+
+
+def _contains(stmts, kinds, stop=(ast.For, ast.AsyncFor, ast.While)):
+    """a statement of one of `kinds` that belongs to THIS loop (not to a nested loop)"""
+    for st in stmts:
+        if isinstance(st, kinds):
+            return True
+        if isinstance(st, (ast.FunctionDef, ast.AsyncFunctionDef, ast.ClassDef)):
+            continue
+        for fld in ("body", "orelse", "finalbody"):
+            sub = getattr(st, fld, None)
+            if isinstance(sub, list) and sub and isinstance(sub[0], ast.stmt):
+                if isinstance(st, stop) and fld == "body":
+                    continue
+                if _contains(sub, kinds, stop):
+                    return True
+        for h in getattr(st, "handlers", []) or []:
+            if _contains(h.body, kinds, stop):
+                return True
+    return False
+
+
+class _Unroll(ast.NodeTransformer):
+    def __init__(self, tables, fn):
+        self.tables = tables
+        self.fn = fn
+        self.count = 0
+
+    def _try(self, st):
+        if not isinstance(st, ast.For):
+            return None
+        tg = st.target
+        names = [tg.id] if isinstance(tg, ast.Name) else [e.id for e in tg.elts] if isinstance(tg, ast.Tuple) and all(isinstance(e, ast.Name) for e in tg.elts) else None
+        if not names:
+            return None
+        entries = _loop_entries(st.iter, self.tables, len(names))
+        if not entries or len(entries) > 12:
+            return None
+        # loop variables: not stored in the body, not read outside the loop
+        inside = {id(x) for x in ast.walk(st)}
+        for x in ast.walk(self.fn):
+            if isinstance(x, ast.Name) and x.id in names:
+                if id(x) not in inside:
+                    return None
+                if isinstance(x.ctx, (ast.Store, ast.Del)) and not any(x is y for y in ast.walk(tg)):
+                    return None
+        if _contains(st.body, (ast.Continue,)):
+            return None
+        has_break = _contains(st.body, (ast.Break,))
+        chain = False
+        if has_break:
+            b = st.body
+            if not (len(b) == 1 and isinstance(b[0], ast.If) and not b[0].orelse and b[0].body and isinstance(b[0].body[-1], ast.Break) and not _contains(b[0].body[:-1], (ast.Break,))):
+                return None
+            chain = True
+
+        def inst(stmts, entry):
+            sub = _ConstSubst(dict(zip(names, entry)))
+            return [sub.visit(copy.deepcopy(x)) for x in stmts]
+        if chain:
+            tail = list(st.orelse)
+            for entry in reversed(entries):
+                iff = inst(st.body, entry)[0]
+                iff.body = iff.body[:-1] or [ast.copy_location(ast.Pass(), iff)]
+                iff.orelse = tail
+                tail = [iff]
+            out = tail
+        else:
+            out = []
+            for entry in entries:
+                out += inst(st.body, entry)
+            out += list(st.orelse)
+        self.count += 1
+        return out
+
+    def _body(self, stmts):
+        out = []
+        for st in stmts:
+            st = self.visit(st)
+            rep = self._try(st)
+            out += rep if rep is not None else [st]
+        return out
+
+    def generic_visit(self, node):
+        for fld in ("body", "orelse", "finalbody"):
+            v = getattr(node, fld, None)
+            if isinstance(v, list) and v and isinstance(v[0], ast.stmt):
+                setattr(node, fld, self._body(v))
+        for h in getattr(node, "handlers", []) or []:
+            h.body = self._body(h.body)
+        return node
+
+
+def _params(fn):
+    a = fn.args
+    return a.posonlyargs + a.args, a.kwonlyargs
+
+
+def _inline_wrappers(tree):
+    mod_defs, counts = {}, {}
+    for st in tree.body:
+        if isinstance(st, (ast.FunctionDef,)):
+            counts[st.name] = counts.get(st.name, 0) + 1
+            mod_defs[st.name] = st
+    mod_names = set(counts)
+    for st in tree.body:
+        if isinstance(st, ast.Assign):
+            for t in st.targets:
+                if isinstance(t, ast.Name):
+                    mod_names.add(t.id)
+        elif isinstance(st, (ast.Import, ast.ImportFrom)):
+            for a in st.names:
+                mod_names.add((a.asname or a.name).split(".")[0])
+        elif isinstance(st, ast.ClassDef):
+            mod_names.add(st.name)
+    done = 0
+
+    def candidate(w):
+        body = list(w.body)
+        if body and isinstance(body[0], ast.Expr) and isinstance(body[0].value, ast.Constant) and isinstance(body[0].value.value, str):
+            body = body[1:]
+        if len(body) != 1 or not isinstance(body[0], (ast.Return, ast.Expr)) or not isinstance(body[0].value, ast.Call):
+            return None
+        call = body[0].value
+        if not isinstance(call.func, ast.Name) or counts.get(call.func.id) != 1 or call.func.id == w.name:
+            return None
+        h = mod_defs[call.func.id]
+        if h.decorator_list or h.args.vararg or h.args.kwarg or w.args.vararg or w.args.kwarg:
+            return None
+        if any(isinstance(a, ast.Starred) for a in call.args) or any(k.arg is None for k in call.keywords):
+            return None
+        wparams = {a.arg for a in _params(w)[0] + _params(w)[1]}
+        # a parameter of w that is shadowed by a module name is still the parameter
+        def simple(e):
+            if isinstance(e, ast.Constant):
+                return True
+            if isinstance(e, ast.Name):
+                return e.id in wparams or e.id in mod_names
+            return False
+        if not all(simple(a) for a in call.args) or not all(simple(k.value) for k in call.keywords):
+            return None
+        pos, kwonly = _params(h)
+        if len(call.args) > len(pos):
+            return None
+        bind = {}
+        for prm, a in zip(pos, call.args):
+            bind[prm.arg] = a
+        names = {a.arg for a in pos + kwonly}
+        for k in call.keywords:
+            if k.arg not in names or k.arg in bind:
+                return None
+            bind[k.arg] = k.value
+        defaults = dict(zip([a.arg for a in pos][len(pos) - len(h.args.defaults):], h.args.defaults))
+        defaults.update({a.arg: d for a, d in zip(kwonly, h.args.kw_defaults) if d is not None})
+        for prm in names - set(bind):
+            d = defaults.get(prm)
+            if d is None or not isinstance(d, ast.Constant):
+                return None
+            bind[prm] = d
+        # h: no construct that makes textual substitution unsound
+        for x in ast.walk(h):
+            if x is not h and isinstance(x, (ast.FunctionDef, ast.AsyncFunctionDef, ast.Lambda, ast.ClassDef, ast.Global, ast.Nonlocal, ast.Yield, ast.YieldFrom, ast.Await)):
+                return None
+        sc = _Scope()
+        for st in h.body:
+            sc.visit(st)
+        local = set(sc.bind) | sc.bad
+        if local & set(bind):
+            return None      # a substituted parameter is reassigned in h
+        for prm, a in bind.items():
+            if isinstance(a, ast.Name) and a.id in wparams and a.id != prm:
+                if a.id in local or (a.id in names):
+                    return None
+                # h must not already use that name for something else (a module-level name of the same spelling)
+                if any(isinstance(x, ast.Name) and x.id == a.id for x in ast.walk(h)):
+                    return None
+        return h, bind, isinstance(body[0], ast.Return)
+
+    for _round in range(3):
+        changed = False
+        for w in [n for n in ast.walk(tree) if isinstance(n, ast.FunctionDef)]:
+            c = candidate(w)
+            if c is None:
+                continue
+            h, bind, is_ret = c
+            sub = _ConstSubst(bind)
+            new_body = [sub.visit(copy.deepcopy(st)) for st in h.body]
+            if new_body and isinstance(new_body[0], ast.Expr) and isinstance(new_body[0].value, ast.Constant) and isinstance(new_body[0].value.value, str):
+                new_body = new_body[1:] or [ast.copy_location(ast.Pass(), h.body[0])]
+            if not is_ret:
+                # h(...) as a statement: h's return value is dropped; `return <expr>` still ends the function, the value is unused by callers of w only if w's
+                # callers ignore it too -- keep exactness: only inline statement-calls of functions that never return a value
+                if any(isinstance(x, ast.Return) and x.value is not None for st in new_body for x in ast.walk(st)):
+                    continue
+            doc = [w.body[0]] if (w.body and isinstance(w.body[0], ast.Expr) and isinstance(w.body[0].value, ast.Constant) and isinstance(w.body[0].value.value, str)) else []
+            w.body = doc + new_body
+            done += 1
+            changed = True
+        if not changed:
+            break
+    return done
+
+
+def _inline_expr_helpers(tree):
+    counts, helpers = {}, {}
+    for st in tree.body:
+        if isinstance(st, ast.FunctionDef):
+            counts[st.name] = counts.get(st.name, 0) + 1
+    for st in tree.body:
+        if not isinstance(st, ast.FunctionDef) or counts[st.name] != 1 or st.decorator_list or st.args.vararg or st.args.kwarg:
+            continue
+        body = list(st.body)
+        if body and isinstance(body[0], ast.Expr) and isinstance(body[0].value, ast.Constant) and isinstance(body[0].value.value, str):
+            body = body[1:]
+        if len(body) != 1 or not isinstance(body[0], ast.Return) or body[0].value is None:
+            continue
+        e = body[0].value
+        if any(isinstance(x, (ast.Lambda, ast.NamedExpr, ast.ListComp, ast.SetComp, ast.DictComp, ast.GeneratorExp, ast.Yield, ast.YieldFrom, ast.Await)) for x in ast.walk(e)):
+            continue
+        if any(isinstance(x, ast.Call) and isinstance(x.func, ast.Name) and x.func.id == st.name for x in ast.walk(e)):
+            continue
+        helpers[st.name] = (st, e)
+    if not helpers:
+        return 0
+    done = 0
+
+    def simple(a):
+        while isinstance(a, ast.Attribute):
+            a = a.value
+        return isinstance(a, (ast.Name, ast.Constant))
+
+    for fn in [n for n in ast.walk(tree) if isinstance(n, (ast.FunctionDef, ast.AsyncFunctionDef))]:
+        sc = _Scope()
+        for st in fn.body:
+            sc.visit(st)
+        local = set(sc.bind) | sc.bad | {a.arg for a in fn.args.posonlyargs + fn.args.args + fn.args.kwonlyargs} | ({fn.args.vararg.arg} if fn.args.vararg else set()) | ({fn.args.kwarg.arg} if fn.args.kwarg else set())
+
+        class T(ast.NodeTransformer):
+            def visit_FunctionDef(self_, n):
+                return n if n is not fn else self_.generic_visit(n)
+
+            def visit_Call(self_, n):
+                nonlocal done
+                self_.generic_visit(n)
+                if not (isinstance(n.func, ast.Name) and n.func.id in helpers and n.func.id not in local and n.func.id != fn.name):
+                    return n
+                h, e = helpers[n.func.id]
+                if any(isinstance(a, ast.Starred) for a in n.args) or any(k.arg is None for k in n.keywords):
+                    return n
+                pos = h.args.posonlyargs + h.args.args
+                kwonly = h.args.kwonlyargs
+                if len(n.args) > len(pos):
+                    return n
+                bind = {prm.arg: a for prm, a in zip(pos, n.args)}
+                names = {a.arg for a in pos + kwonly}
+                for k in n.keywords:
+                    if k.arg not in names or k.arg in bind:
+                        return n
+                    bind[k.arg] = k.value
+                defaults = dict(zip([a.arg for a in pos][len(pos) - len(h.args.defaults):], h.args.defaults))
+                defaults.update({a.arg: d for a, d in zip(kwonly, h.args.kw_defaults) if d is not None})
+                for prm in names - set(bind):
+                    if not isinstance(defaults.get(prm), ast.Constant):
+                        return n
+                    bind[prm] = defaults[prm]
+                uses = {}
+                for x in ast.walk(e):
+                    if isinstance(x, ast.Name):
+                        if x.id in names:
+                            uses[x.id] = uses.get(x.id, 0) + 1
+                        elif x.id in local:
+                            return n          # a module-level name of the helper is shadowed in the caller
+                if any(not simple(a) and uses.get(prm, 0) != 1 for prm, a in bind.items()):
+                    return n
+                new = _ConstSubst(bind).visit(copy.deepcopy(e))
+                for x in ast.walk(new):
+                    if not hasattr(x, "lineno") or True:
+                        ast.copy_location(x, n)
+                done += 1
+                return new
+        T().visit(fn)
+    return done
+
+
+def _always_raises(stmts):
+    if not stmts:
+        return False
+    last = stmts[-1]
+    if isinstance(last, ast.Raise):
+        return True
+    if isinstance(last, ast.If):
+        return _always_raises(last.body) and _always_raises(last.orelse)
+    return False
+
+
+def _inline_noreturn(tree):
+    counts, defs_ = {}, {}
+    for st in tree.body:
+        if isinstance(st, ast.FunctionDef):
+            counts[st.name] = counts.get(st.name, 0) + 1
+            defs_[st.name] = st
+    nr = {}
+    for name, h in defs_.items():
+        if counts[name] != 1 or h.decorator_list or h.args.vararg or h.args.kwarg:
+            continue
+        body = list(h.body)
+        if body and isinstance(body[0], ast.Expr) and isinstance(body[0].value, ast.Constant) and isinstance(body[0].value.value, str):
+            body = body[1:]
+        if not _always_raises(body):
+            continue
+        if any(isinstance(x, (ast.Return, ast.FunctionDef, ast.AsyncFunctionDef, ast.Lambda, ast.ClassDef, ast.Global, ast.Nonlocal, ast.Yield, ast.YieldFrom, ast.Await)) for st in body for x in ast.walk(st)):
+            continue
+        nr[name] = (h, body)
+    if not nr:
+        return 0
+    done = 0
+
+    def simple(a):
+        while isinstance(a, ast.Attribute):
+            a = a.value
+        return isinstance(a, (ast.Name, ast.Constant))
+
+    for fn in [n for n in ast.walk(tree) if isinstance(n, (ast.FunctionDef, ast.AsyncFunctionDef))]:
+        sc = _Scope()
+        for st in fn.body:
+            sc.visit(st)
+        local = set(sc.bind) | sc.bad | {a.arg for a in fn.args.posonlyargs + fn.args.args + fn.args.kwonlyargs}
+
+        def expand(st):
+            nonlocal done
+            if not (isinstance(st, ast.Expr) and isinstance(st.value, ast.Call) and isinstance(st.value.func, ast.Name) and st.value.func.id in nr and st.value.func.id not in local and st.value.func.id != fn.name):
+                return None
+            call = st.value
+            h, body = nr[call.func.id]
+            if any(isinstance(a, ast.Starred) for a in call.args) or any(k.arg is None for k in call.keywords):
+                return None
+            if not all(simple(a) for a in call.args) or not all(simple(k.value) for k in call.keywords):
+                return None
+            pos, kwonly = _params(h)
+            if len(call.args) > len(pos):
+                return None
+            bind = {prm.arg: a for prm, a in zip(pos, call.args)}
+            names = {a.arg for a in pos + kwonly}
+            for k in call.keywords:
+                if k.arg not in names or k.arg in bind:
+                    return None
+                bind[k.arg] = k.value
+            defaults = dict(zip([a.arg for a in pos][len(pos) - len(h.args.defaults):], h.args.defaults))
+            defaults.update({a.arg: d for a, d in zip(kwonly, h.args.kw_defaults) if d is not None})
+            for prm in names - set(bind):
+                if not isinstance(defaults.get(prm), ast.Constant):
+                    return None
+                bind[prm] = defaults[prm]
+            hs = _Scope()
+            for b in body:
+                hs.visit(b)
+            hlocal = set(hs.bind) | hs.bad
+            if hlocal & set(bind) or hlocal & local:
+                return None      # a substituted parameter is reassigned, or a local of the helper would clash with a local of the caller
+            for x in (x for b in body for x in ast.walk(b)):
+                if isinstance(x, ast.Name) and x.id not in names and x.id in local:
+                    return None  # a module-level name of the helper is shadowed in the caller
+            done += 1
+            sub = _ConstSubst(bind)
+            return [sub.visit(copy.deepcopy(b)) for b in body]
+
+        class T(ast.NodeTransformer):
+            def _body(self_, stmts):
+                out = []
+                for st in stmts:
+                    if isinstance(st, (ast.FunctionDef, ast.AsyncFunctionDef, ast.ClassDef)):
+                        out.append(st)
+                        continue
+                    st = self_.visit(st)
+                    rep = expand(st)
+                    out += rep if rep is not None else [st]
+                return out
+
+            def generic_visit(self_, node):
+                for fld in ("body", "orelse", "finalbody"):
+                    v = getattr(node, fld, None)
+                    if isinstance(v, list) and v and isinstance(v[0], ast.stmt):
+                        setattr(node, fld, self_._body(v))
+                for h_ in getattr(node, "handlers", []) or []:
+                    h_.body = self_._body(h_.body)
+                return node
+        T().generic_visit(fn)
+    return done
+
+
 def normalise(tree):
     n_alias = n_upd = 0
+    n_inlined0 = _inline_wrappers(tree)      # before N5: a thin wrapper that rules know by name keeps its name in its callers
+    n_noret = _inline_noreturn(tree)
+    n_expr = 0
+    for _r in range(3):
+        k = _inline_expr_helpers(tree)
+        n_expr += k
+        if not k:
+            break
+    n_inlined = n_inlined0 + _inline_wrappers(tree)
+    tables = _module_tables(tree)
+    n_unrolled = 0
+    for fn in [n for n in ast.walk(tree) if isinstance(n, (ast.FunctionDef, ast.AsyncFunctionDef))]:
+        u = _Unroll(tables, fn)
+        u.generic_visit(fn)
+        n_unrolled += u.count
     for fn in [n for n in ast.walk(tree) if isinstance(n, (ast.FunctionDef, ast.AsyncFunctionDef))]:
         al = _aliases(fn)
         if al:
@@ -210,4 +733,4 @@ def normalise(tree):
     _Updates().visit(tree)
     n_upd = sum(1 for n in ast.walk(tree) if isinstance(n, ast.Assign)) - before
     ast.fix_missing_locations(tree)
-    return tree, {"aliases_inlined": n_alias, "update_keys_split": n_upd}
+    return tree, {"aliases_inlined": n_alias, "update_keys_split": n_upd, "table_loops_unrolled": n_unrolled, "wrappers_inlined": n_inlined, "expression_helpers_inlined": n_expr, "noreturn_helpers_inlined": n_noret}
